@@ -28,7 +28,7 @@ RULE = ("E2: breadth-first search over operation histories of real Bec2File obje
         "either): rejected with both decryptors, accepted with one decryptor iff the body matches that block's key; ('multisplice', ...) headers of 2..3 blocks INCLUDING several blocks of the same tag (two ECC blocks for different selectors, two customer-key blocks, ...) x every assignment of two keys: accepted exactly when all blocks agree."
         " Spliced headers are read with and without MAC checking (agreement of the blocks does not depend on it); the caller's encryptor lists start with the selector-2 entry so that selector 0 is never matched by position."
         ' TLA+ cross-check: models/bec2header.tla describes the header reader as a state machine (blocks in file order, decrypt where a decryptor exists, agreed key, mismatch / no key / bad MAC / accepted); TLC enumerates EVERY behaviour (all headers of up to 2 blocks, thorough 3, over {cust, ecc, upd} x {k1, k2}, every decryptor subset, both body keys) and each one is replayed on the real reader with reference-built headers and decryptor subclasses that record their calls: outcome, session key and the order of decrypt calls must conform.'
-        " ('recipients', sequence): several files written in ONE process to different key pairs of the SAME selector (explicit A, explicit B, published default) - each file's blocks must wrap that file's key for that file's recipient; multisplice headers are also read with the decryptors given as a one-shot iterator.")
+        " ('recipients', sequence): several files written in ONE process to different key pairs of the SAME selector (explicit A, explicit B, published default) - each file's blocks must wrap that file's key for that file's recipient; multisplice headers are also read with the decryptors given as a one-shot iterator. Explicitly supplied session-key value classes (00..00 = the library's default constant, ff..ff, 00..01, 01 00.., half zero) x 4 block sets: write, independent unwrap, component under that key, read back, write again; the reads of the state search unwrap with the history's long-lived encryptor objects.")
 ASSUMPTIONS = [
     "canonical-state merging assumes operations depend only on the hashed fields plus the randomness stream; hidden library-global state is still "
     "caught because every check is phrased per transition (draws consumed by this operation, points new in this history)",
@@ -50,6 +50,12 @@ def consts(ctx):
         CODE = ctx.sym("c07-code", 8)
         SCAL[0] = FX.ecc_scalar(ctx, 10)
         SCAL[2] = FX.ecc_scalar(ctx, 12)
+
+
+def keyval(i):
+    # 1, 2: the two keys of the explored graph; 3..: value classes a caller may legitimately pass (the all-zero key is also the
+    # library's DEFAULT_SESSION_KEY constant, so code that treats "the default" as "no key" shows here)
+    return [None, K1, K2, bytes(16), b"\xff" * 16, bytes(15) + b"\x01", b"\x01" + bytes(15), K2[:8] + bytes(8)][i]
 
 
 def encryptors():
@@ -131,7 +137,7 @@ def step(st, op):
             if kind == "new":
                 b = Bec2File(fresh_bf3())
             else:
-                b = Bec2File(fresh_bf3(), session_key=[None, K1, K2][op[1]])
+                b = Bec2File(fresh_bf3(), session_key=keyval(op[1]))
         st.counter = rnd.counter
         if kind == "new":
             if len(rnd.log) != 1 or rnd.log[0][0] != 16:
@@ -146,7 +152,7 @@ def step(st, op):
         else:
             if rnd.log:
                 o.viol("fresh|draws-with-key", "creating a file with a given key consumed randomness")
-            if b.session_key != [None, K1, K2][op[1]]:
+            if b.session_key != keyval(op[1]):
                 o.viol("key|given-key-not-used", "given session key not used")
             st.origin[slot] = "K%d" % op[1]
         dirty = shapes.default_objects_dirty()
@@ -161,7 +167,7 @@ def step(st, op):
         # the content (possibly obtained by reading a file) is put into a new Bec2File under another session key
         if obj is None or st.kept[i]:
             return None
-        newkey = [None, K1, K2][op[1]]
+        newkey = keyval(op[1])
         if obj.session_key == newkey:
             return None
         st.objs[i] = Bec2File(obj.bf3file, list(obj.auth_blocks.values()), session_key=newkey)
@@ -208,7 +214,9 @@ def step(st, op):
                 return None
         elif not set(D) <= set(kinds_present):
             return None
-        decs = sum((decryptor(k) for k in D), [])
+        # the caller's long-lived encryptor objects (the ones the writes use) also do the unwrapping, as in an application that
+        # keeps one key object around: an object that remembers anything from an unwrap shows at the next write
+        decs = sum(([st.encs[1]] if k == "cust" else [st.encs[0], st.encs[2]] if k == "ecc" else decryptor(k) for k in D), [])
         with rnd:
             r = Bec2File.read_file(io.StringIO(st.texts[i]), decs)
         st.counter = rnd.counter
@@ -340,6 +348,13 @@ def splice_cases(ctx):
     for n in (2, 3):
         for seq in _p(("A", "B", "default"), repeat=n):
             yield ("recipients", seq)
+    # session-key value classes (explicitly supplied keys): write, independent unwrap of every block, component under that key,
+    # read back, write again
+    for kv in range(3, 8):
+        for blocks in ((("add", "cust"),), (("add", "ecc", 0),), (("add", "upd"),), (("add", "cust"), ("add", "ecc", 2), ("add", "upd"))):
+            rd = ("read",) + tuple(b[1] for b in blocks)
+            yield ("hist", ("newkey", kv)) + blocks + (("write",), rd, ("write",))
+            yield ("hist", ("new",)) + blocks + (("rekey", kv), ("write",), rd)
     kinds = ("cust", "ecc", "upd")
     nk = len(splice_keys(ctx))
     for a in kinds:
